@@ -6,19 +6,31 @@ import (
 	"runtime/debug"
 
 	"github.com/thomasjungblut/go-sstables/recordio"
+	rProto "github.com/thomasjungblut/go-sstables/recordio/proto"
+	"github.com/thomasjungblut/go-sstables/sstables/proto"
 	"github.com/thomasjungblut/go-sstables/vrt"
 )
 
 // H_C19_Readers: closing a table reader releases everything it opened, including scanners created from it
 // (complete and abandoned); recordio readers and writers release their file.
 func H_C19_Readers() {
+	if !vrt.Symbolic() {
+		// a leaked *os.File would be closed by its finalizer at the next garbage collection
+		defer debug.SetGCPercent(debug.SetGCPercent(-1))
+	}
 	fs := vEnv()
 	defer fs.Cleanup()
 	dir := fs.Path("t")
 	fs.MkdirAll(dir)
 	keys := [][]byte{{'a'}, {'b'}}
 	vals := [][]byte{{vrt.Byte("v0")}, {vrt.Byte("v1")}}
-	vWriteTable(dir, keys, vals, recordio.CompressionTypeSnappy, recordio.CompressionTypeNone, 64)
+	if vrt.Choose("format", 2) == 0 {
+		vWriteTable(dir, keys, vals, recordio.CompressionTypeSnappy, recordio.CompressionTypeNone, 64)
+	} else {
+		// a table in the first layout (values wrapped in a message, no metadata, no checksums) is still a table
+		vWriteLegacyTable(dir, keys, vals)
+		vrt.Reach("readers/legacy-table")
+	}
 	vrt.Assert(fs.OpenCount() == 0, "readers/writer-close-releases-everything")
 
 	li := vrt.Choose("loader", 4)
@@ -61,6 +73,25 @@ func H_C19_Readers() {
 	vrt.Assert(err == nil && mr.Open() == nil, "readers/mmap-open")
 	vrt.Assert(mr.Close() == nil && fs.OpenCount() == 0, "readers/mmap-reader-close-releases-mapping")
 	vrt.Reach("readers/end")
+}
+
+// vWriteLegacyTable writes the keys and values in the layout of the first releases: index entries without
+// checksums, every value wrapped in a DataEntry message, no metadata file, no filter.
+func vWriteLegacyTable(dir string, keys, vals [][]byte) {
+	dw, err := rProto.NewWriter(rProto.Path(dir+"/"+DataFileName), rProto.WriteBufferSizeBytes(64))
+	vrt.Assert(err == nil && dw.Open() == nil, "legacy/data-writer-opens")
+	iw, err := rProto.NewWriter(rProto.Path(dir+"/"+IndexFileName), rProto.WriteBufferSizeBytes(64))
+	vrt.Assert(err == nil && iw.Open() == nil, "legacy/index-writer-opens")
+	for i := range keys {
+		off, err := dw.Write(&proto.DataEntry{Value: vals[i]})
+		if err != nil {
+			vrt.Note("legacy data write: " + err.Error())
+		}
+		vrt.Assert(err == nil, "legacy/data-write")
+		_, err = iw.Write(&proto.IndexEntry{Key: keys[i], ValueOffset: off})
+		vrt.Assert(err == nil, "legacy/index-write")
+	}
+	vrt.Assert(dw.Close() == nil && iw.Close() == nil, "legacy/writers-close")
 }
 
 // H_C19_FailedOpen: opening a table with a damaged or missing file either fails and leaves nothing open, or
